@@ -424,7 +424,7 @@ def option_matrix(run, rng):
                     stats["hw_option_cases"] += 1
                     why = hw_option_error(data, n, k, kw, idx)
                     if why:
-                        run.find(f"options:hw:{n}_{k}:full{int(full)}:opt{int(opt)}:pc{int(pc)}:{'c' if cplx else 'r'}:{pattern}",
+                        run.find(f"options:hw:{n}_{k}:full{int(full)}:opt{int(opt)}:pc{int(pc)}:{'c' if cplx else 'r'}:{pattern}:{'istr' if istr else 'noistr'}",
                                  f"hamming_weight_encoder(data, {n}, {k}, {desc['options']}, initial_string={istr}) on {pattern} "
                                  f"{'complex' if cplx else 'real'} data: {why}", desc)
     # comp_basis_encoder: one bit string in every accepted form
@@ -547,6 +547,10 @@ def replay(run, key, what, rp):
         why = hw_option_error(data if rp["complex"] else np.real(data), rp["n"], rp["k"], kw, weight_k_indices(rp["n"], rp["k"]))
         if why:
             run.find(key, what + " | " + why, rp)
+        return True
+    if key.startswith("qft:kwargs"):
+        import random
+        qft_options(run, random.Random(0))
         return True
     if key.startswith("options:") or key.startswith("repr:phase"):
         import random
